@@ -558,7 +558,7 @@ func genLoud(e *emitter, vars []string) {
 	for _, f := range []string{"JSON", "JsonLegacy", "Native", "OCSF"} {
 		for _, ty := range []string{"Serial", "Concurrent"} {
 			// ABCFHZ is the documented default (trailer H without the matched-rules part K), ABKZ has K without H
-			for _, parts := range []string{"ABCDEFGHIJKZ", "AZ", "ABIJFHKZ", "ABCFHZ", "ABKZ"} {
+			for _, parts := range []string{"ABCDEFGHIJKZ", "AZ", "ABIJFHKZ", "ABCFHZ", "ABKZ", "ABKHZ"} { // ... ABKHZ lists K before H
 				for _, act := range []string{"pass", "deny,status:403", "drop", "redirect:http://x/", "allow"} {
 					for _, ph := range []int{1, 2, 3, 4, 5} {
 						hole := fmt.Sprintf("SecAuditLogFormat %s\nSecAuditLogType %s\nSecAuditLogStorageDir @@S@@\nSecAuditLogParts %s\nSecUploadDir @@S@@\nSecUploadKeepFiles On\n"+
